@@ -548,6 +548,14 @@ def handleEy (st : St) (args : List String) : St × String :=
       else if !g.nullableClosed then (st, "nullable-flags-not-closed")
       else ({ st with eys := (id, g) :: st.eys.filter (·.1 ≠ id) }, "ok")
     | _, _, _, _, _ => (st, "bad-op")
+  | ["prod", id] =>
+    -- premise of the valid-prefix theorem (c05_earley_rows_viable): every right-hand-side symbol is productive
+    match parseNat? id with
+    | some id =>
+      match st.eys.find? (·.1 = id) with
+      | some (_, g) => (st, "ok " ++ showBool g.allProductive)
+      | none => (st, "bad-op")
+    | none => (st, "bad-op")
   | ["rows", id, lexs] =>
     match parseNat? id, (if lexs = "-" then some [] else (lexs.splitOn "|").mapM parseNatList?) with
     | some id, some lexs =>
